@@ -22,28 +22,35 @@ type MetadataEndpoint struct {
 	DisableIssuerIdentifierVerification bool `mapstructure:"disable_issuer_identifier_verification"`
 }
 
-func (e *MetadataEndpoint) init() {
-	if e.Headers == nil {
-		e.Headers = make(map[string]string)
+// endpointWithDefaults returns a copy of the configured endpoint with the default settings applied.
+// The configured endpoint itself is shared between all the requests being processed and is not modified.
+func (e *MetadataEndpoint) endpointWithDefaults() endpoint.Endpoint {
+	ept := e.Endpoint
+
+	ept.Headers = make(map[string]string, len(e.Headers)+1)
+	for k, v := range e.Headers {
+		ept.Headers[k] = v
 	}
 
-	if _, ok := e.Headers["Accept"]; !ok {
-		e.Headers["Accept"] = "application/json"
+	if _, ok := ept.Headers["Accept"]; !ok {
+		ept.Headers["Accept"] = "application/json"
 	}
 
-	if len(e.Method) == 0 {
-		e.Method = http.MethodGet
+	if len(ept.Method) == 0 {
+		ept.Method = http.MethodGet
 	}
 
-	if e.HTTPCache == nil {
-		e.HTTPCache = &endpoint.HTTPCache{Enabled: true, DefaultTTL: 30 * time.Minute} //nolint:mnd
+	if ept.HTTPCache == nil {
+		ept.HTTPCache = &endpoint.HTTPCache{Enabled: true, DefaultTTL: 30 * time.Minute} //nolint:mnd
 	}
+
+	return ept
 }
 
 func (e *MetadataEndpoint) Get(ctx context.Context, args map[string]any) (ServerMetadata, error) {
-	e.init()
+	ept := e.endpointWithDefaults()
 
-	req, err := e.CreateRequest(ctx, nil, endpoint.RenderFunc(func(value string) (string, error) {
+	req, err := ept.CreateRequest(ctx, nil, endpoint.RenderFunc(func(value string) (string, error) {
 		tpl, err := template.New(value)
 		if err != nil {
 			return "", errorchain.NewWithMessage(heimdall.ErrInternal, "failed to create template").
@@ -57,7 +64,7 @@ func (e *MetadataEndpoint) Get(ctx context.Context, args map[string]any) (Server
 			"failed creating oauth2 server metadata request").CausedBy(err)
 	}
 
-	resp, err := e.CreateClient(req.URL.Hostname()).Do(req)
+	resp, err := ept.CreateClient(req.URL.Hostname()).Do(req)
 	if err != nil {
 		var clientErr *url.Error
 		if errors.As(err, &clientErr) && clientErr.Timeout() {
